@@ -1,7 +1,10 @@
 import Mltwist.Spec.IntervalSet
 import Mltwist.Lemmas.IntervalBasic
+import Mltwist.Lemmas.IntervalInter
+import Mltwist.Lemmas.IntervalCompl
 /-
-Helper lemmas for C17.  (Proofs to be supplied.)
+Helper lemmas for C17.  The supporting development is in `IntervalBasic` (Mem/Normal,
+`addInterval`, sort, union), `IntervalInter` (intersect) and `IntervalCompl` (complement).
 -/
 namespace Mltwist.Lemmas.Interval
 open Mltwist.Interval
@@ -36,18 +39,24 @@ theorem union_mem (a b : List Intv) (ha : Normal a) (hb : Normal b) (x : Int) :
 
 theorem complement_normal (a b : List Intv) (ha : Normal a) (hb : Normal b) :
     Normal (mapComplement a b) := by
-  sorry
+  unfold mapComplement
+  exact (mapComplementLoop_spec b hb a 0 [] ha (by simp [Normal]) (by simp) (by simp)).1
 
 theorem complement_mem (a b : List Intv) (ha : Normal a) (hb : Normal b) (x : Int) :
     Mem x (mapComplement a b) ↔ Mem x a ∧ ¬ Mem x b := by
-  sorry
+  unfold mapComplement
+  rw [(mapComplementLoop_spec b hb a 0 [] ha (by simp [Normal]) (by simp) (by simp)).2 x]
+  simp [mem_nil]
 
 theorem intersect_normal (a b : List Intv) (ha : Normal a) (hb : Normal b) :
     Normal (mapIntersect a b) := by
-  sorry
+  unfold mapIntersect
+  exact (mapIntersectLoop_spec b hb a 0 [] ha (by simp [Normal]) (by simp) (by simp)).1
 
 theorem intersect_mem (a b : List Intv) (ha : Normal a) (hb : Normal b) (x : Int) :
     Mem x (mapIntersect a b) ↔ Mem x a ∧ Mem x b := by
-  sorry
+  unfold mapIntersect
+  rw [(mapIntersectLoop_spec b hb a 0 [] ha (by simp [Normal]) (by simp) (by simp)).2 x]
+  simp [mem_nil]
 
 end Mltwist.Lemmas.Interval
